@@ -137,12 +137,18 @@ def check(run):
             v = "raised"
         lines.append(f"w3j1 {a[0]} {a[1]} {a[2]} {ms[0]} {ms[1]} {ms[2]}")
         exp.append(v)
+        if v != "raised":       # (the generated text has no exception but the one `raise` of calculate, which the front end cannot reach silently)
+            lines.append(f"genw3j1 {a[0]} {a[1]} {a[2]} {ms[0]} {ms[1]} {ms[2]}")
+            exp.append(v)
         try:
             v = kern.corr.bits(spherical.clebsch_gordan(a[0], ms[0], a[1], ms[1], a[2], -ms[2]))
         except Exception:
             v = "raised"
         lines.append(f"cg {a[0]} {ms[0]} {a[1]} {ms[1]} {a[2]} {-ms[2]}")
         exp.append(v)
+        if v != "raised":
+            lines.append(f"gencg {a[0]} {ms[0]} {a[1]} {ms[1]} {a[2]} {-ms[2]}")
+            exp.append(v)
     out = run.driver(lines)
     if out is not None:
         nb = 0
